@@ -261,6 +261,8 @@ P_Monotone(s, t) == /\ t.lhw >= s.lhw /\ t.leo >= s.leo
                                     /\ SubSeq(t.flog[f], 1, Len(s.flog[f])) = s.flog[f]
 \* a response of another leader epoch changes nothing at the follower
 P_StaleDropped(s, t, f, w) == Loop(s, f, w).resp.e # s.fep[f] => (t.flog[f] = s.flog[f] /\ t.fhw[f] = s.fhw[f])
+\* an answer of the follower's own leader epoch hands the leader's HW over (the only way it travels)
+P_HWTaken(s, t, f, w) == LET r == Loop(s, f, w).resp IN r.e = s.fep[f] => t.fhw[f] >= r.hw
 \* a report names exactly the epoch the reporting loop follows, and is made only after a request
 \* that was not answered, by a loop that has had no contact for more than the timeout
 Unanswered(s, a) == a = "FTimeout" \/ (a = "FSend" /\ ~s.up)
